@@ -4,6 +4,9 @@ import EmuVerif.Props.C27
 #print axioms EmuVerif.Props.C27.save_completes
 #print axioms EmuVerif.Props.C27.autosave_survives_crash
 #print axioms EmuVerif.Props.C27.loadable_forever
+#print axioms EmuVerif.Props.C27.earlyReplace_counterexample
+#print axioms EmuVerif.Props.C27.earlyReplace_not_crash_safe
+#print axioms EmuVerif.Props.C27.earlyReplace_completes
 #print axioms EmuVerif.Props.C27.threeStep_counterexample
 #print axioms EmuVerif.Props.C27.threeStep_not_crash_safe
 #print axioms EmuVerif.Props.C27.threeStep_data_not_lost
